@@ -719,7 +719,7 @@ func RunRibHistory(name string, cfg *RibCfg, steps []Step) (*Trace, error) {
 					}
 				}()
 				if s.Gap != nil && (s.Kind == "add" || s.Kind == "del") {
-					var once, yInside atomic.Bool
+					var once atomic.Bool
 					yDone := make(chan string, 1)
 					r.SetPostChangeHook(func(constants.OpType, int64, string, ygot.ValidatedGoStruct) {
 						if once.Swap(true) {
@@ -761,7 +761,7 @@ func RunRibHistory(name string, cfg *RibCfg, steps []Step) (*Trace, error) {
 					// a Flush with a second writer let in at its first notification: the recording hook
 					// stays registered (the notifications are the subject), and the second writer's
 					// operation is started from inside the hook call
-					var once atomic.Bool
+					var once, yInside atomic.Bool
 					yDone := make(chan string, 1)
 					r.SetPostChangeHook(func(ot constants.OpType, ts int64, ni string, e ygot.ValidatedGoStruct) {
 						h.fn(ot, ts, ni, e)
